@@ -210,6 +210,12 @@ Definition kinds_ok (d : sdesc) (rev_code fwd_code : N) : bool :=
   | KGreedy => pre_greedy d
   | _ => true
   end.
+(* the bitmap the implementation attached to each class of its HIR (read through the hook as the list of
+   member bytes) against `class_bitmap` (class_to_bitmap / perl_class_to_bitmap): the bitmap feeds literal
+   extraction only, the validators get the class text *)
+Definition classes_ok (l : list (cls * list N)) : bool :=
+  forallb (fun cm => list_eqb N.eqb (filter (class_bitmap (fst cm)) (iota 0 256)) (snd cm)) l.
+
 Definition with_kinds (b : bool) (t : bool * bool * N) : bool * bool * N :=
   let '(c, sp, k) := t in (c && b, sp, k).
 
